@@ -117,6 +117,21 @@ def _judge_listing(ctx, ws, text, origin, force_history=False):
                                  f"the stream built {what} differs from the one a fresh run builds: {str(got).count('|')} vs {s.count('|')} records; "
                                  f"first difference at record {n}: {((got or '').split('|')[n] if n >= 0 and got else got)!r} vs {(s.split('|')[n] if n >= 0 else '')!r}")
                 return
+    # (1d) a rule whose valid_addr_range contains no address of the listing installs the range observer but tags nothing: the text
+    #      handed to the matcher is the same, record for record (no record added, dropped or re-encoded by the extra observer)
+    if (force_history or ctx.rng.random() < 0.5) and len(text) < 400000:
+        rq = objd.real_stream(ws, p, rule_text="config:\n  valid_addr_range:\n    min: 'fffffffffffffff0'\n    max: 'fffffffffffffff8'\npattern:\n  - zzzzzz\n")
+        ctx.ran()
+        if rq[0] != "ok":
+            ctx.event("inert_range_run_raised:" + str(rq[1]))       # a branch operand that is not an address: C18's subject
+        else:
+            ctx.event("streams_compared_under_inert_range")
+            if rq[1] != s and "fffffffffffffff" not in text:
+                n = next((i for i, (a, b) in enumerate(zip(rq[1].split("|"), s.split("|"))) if a != b), -1)
+                ctx.disagreement({"origin": origin, "history": True, "listing": text[:100000]},
+                                 f"under a rule whose valid_addr_range holds no address of the listing the stream has {rq[1].count('|')} records, without the option "
+                                 f"{s.count('|')}; first difference at record {n}: {(rq[1].split('|')[n] if n >= 0 else '')!r} vs {(s.split('|')[n] if n >= 0 else '')!r}")
+                return
     # (2) hygiene, record by record: decode(encode(inst)) == inst
     ctx.event("streams_decoded")
     by_addr = {}
